@@ -342,4 +342,11 @@ Section InversionAllInside.
     split; [exact L|]. split; [exact N|].
     intros u k Hu Hz Hk. apply locate_r_never_zero; [assumption | assumption |]. rewrite L by assumption. assumption.
   Qed.
+
+  Theorem inversion_law_full :
+    (forall u, inv_spec u = match locate_r 0 spec_segs u with Some i => Out (proj i) | None => Frontier end)
+    /\ (forall k, (k <= Fn)%nat -> len_of (Z.of_nat k) spec_segs == prob (proj (Z.of_nat k)))
+    /\ seg_nonneg spec_segs
+    /\ (forall u k, 0 < u -> prob (proj (Z.of_nat k)) == 0 -> (k <= Fn)%nat -> locate_r 0 spec_segs u <> Some (Z.of_nat k)).
+  Proof. split; [exact spec_is_locate | exact inversion_law]. Qed.
 End InversionAllInside.
